@@ -8,6 +8,7 @@ mod rng;
 mod util;
 mod eng_link;
 mod eng_transport;
+mod eng_db;
 mod eng_ffi;
 mod eng_ffi_db;
 mod ffi_probe_gen;
@@ -38,6 +39,7 @@ fn main() {
                 "linkaddr" => eng_transport::gen_linkaddr(thorough, seed, &mut out),
                 "parse" => eng_parse::gen(thorough, seed, &mut out),
                 "ffi" => eng_ffi::gen(thorough, seed, &mut out),
+                "db" => eng_db::gen(thorough, seed, &mut out),
                 "convert" => eng_convert::gen(thorough, seed, &mut out),
                 "outstation" => gen_outstation::gen(thorough, seed, &mut out, gen_outstation::GenCfg { with_db: false }),
                 "outstationdb" => gen_outstation::gen(thorough, seed, &mut out, gen_outstation::GenCfg { with_db: true }),
@@ -58,6 +60,7 @@ fn main() {
                 "transport" | "linkaddr" => eng_transport::run(&ops, &mut out, &mut mon),
                 "parse" => eng_parse::run(&ops, &mut out, &mut mon),
                 "ffi" => eng_ffi::run(&ops, &mut out, &mut mon),
+                "db" => eng_db::run(&ops, &mut out, &mut mon),
                 "convert" => eng_convert::run(&ops, &mut out, &mut mon),
                 "outstation" | "outstationdb" => eng_outstation::run(&ops, &mut out, &mut mon),
                 _ => {
